@@ -72,9 +72,45 @@ class StmtMixin:
                     else:
                         done.append(o)
             live = self.prune(nxt)
+            if fr.kind == "code" and fr.fi is not None and live:
+                for after, holder, lname in self.side.lemmas.get(fr.fi.key, []) if getattr(fr, "inline_depth", 0) == 0 else []:
+                    if ast.unparse(s).startswith(after):
+                        fr.lemmas_used.add(lname)
+                        for cur in live:
+                            self.cut_lemma(holder, lname, cur, fr, s)
             if not live:
                 break
         return done + [Outcome("normal", x) for x in live]
+
+    def cut_lemma(self, holder, lname, st, fr, s):
+        spec_fr = Frame(fr.fi, fr.contract, fr.cls, kind="spec")
+        self.init_frame(spec_fr)
+        spec_fr.old_state = fr.entry_state
+        env = dict(st.env)
+        tmp = St(st.guards, st.facts, env, st.heap, st.eff, st.epoch)
+        forget = [n for n in getattr(holder, "forget", []) if n in st.env and st.env[n].t is not None]
+        for cl in holder.clauses:
+            spec_fr.exit_env = env
+            g = self.eval_clause(cl, tmp, spec_fr)
+            self._debug_state = (tmp, spec_fr)
+            self.emit("lemma", f"lemma.{lname}.{cl.name}", list(tmp.guards) + list(tmp.facts), g, fr, s.lineno, ast.unparse(cl.expr)[:120], cl.props)
+            if not forget:
+                tmp.facts.append(z3.Implies(z3.And(st.guards) if st.guards else z3.BoolVal(True), g))
+        st.facts[:] = tmp.facts
+        if forget:
+            # a real cut: the named variables are replaced by fresh values about which only the lemma is known
+            for n in forget:
+                old_ = st.env[n]
+                st.env[n] = self.fresh_sv("cut_" + n, old_.pt)
+            tmp2 = St(st.guards, st.facts, dict(st.env), st.heap, st.eff, st.epoch)
+            spec_fr = Frame(fr.fi, fr.contract, fr.cls, kind="spec")
+            self.init_frame(spec_fr)
+            spec_fr.old_state = fr.entry_state
+            spec_fr.exit_env = tmp2.env
+            for cl in holder.clauses:
+                g = self.eval_clause(cl, tmp2, spec_fr)
+                tmp2.facts.append(z3.Implies(z3.And(st.guards) if st.guards else z3.BoolVal(True), g))
+            st.facts[:] = tmp2.facts
 
     def prune(self, states):
         out = []
@@ -245,6 +281,14 @@ class StmtMixin:
         a.guards.append(c)
         b = st.copy()
         b.guards.append(z3.Not(c))
+        # `isinstance(x, C)` narrows the static class of x in the guarded branch (used only to resolve attributes and methods)
+        tests = s.test.values if isinstance(s.test, ast.BoolOp) and isinstance(s.test.op, ast.And) else [s.test]
+        for t_ in tests:
+            if isinstance(t_, ast.Call) and isinstance(t_.func, ast.Name) and t_.func.id == "isinstance" and len(t_.args) == 2 \
+                    and isinstance(t_.args[0], ast.Name) and isinstance(t_.args[1], ast.Name) and t_.args[1].id in self.repo.classes \
+                    and t_.args[0].id in a.env and a.env[t_.args[0].id].pt == "any" and a.env[t_.args[0].id].t is not None:
+                a.env = dict(a.env)
+                a.env[t_.args[0].id] = SV(a.env[t_.args[0].id].t, "obj:" + t_.args[1].id)
         outs_a = self.exec_block(s.body, a, fr)
         outs_b = self.exec_block(s.orelse, b, fr) if s.orelse else [Outcome("normal", b)]
         normal = [o for o in outs_a + outs_b if o.kind == "normal"]
@@ -543,6 +587,9 @@ class StmtMixin:
                         if rv is not None and rv.pt in ("list", "set", "frozenset", "dict", "tuple", "str", "pylist", "pydict", "int", "bool"):
                             continue      # a method of a local builtin container, not of a repository object
                     for key, c in self.side.contracts.items():
-                        if key.split("::")[-1].split(".")[-1] == name and c.modifies:
+                        parts = key.split("::")[-1].split(".")
+                        if (parts[-1] == name or (parts[-1] == "__init__" and len(parts) > 1 and parts[-2] == name)) and c.modifies:
                             out |= {a for a in c.modifies if not a.startswith("*")}
-        return out
+        # write-once attributes are functions of their object (obligation write-once@<attr>): creating objects does not change them
+        # for the objects that exist
+        return out - set(self.side.write_once)
